@@ -6,7 +6,7 @@ from . import nat
 from .common import E, L, TRUE, FALSE
 
 META = {
-    'bounds': {'quick': 'DFA: every DFA with 2 states over {a, b} (and 3 states over {a}); NFA: every relation over 2 states, {a, b}, '
+    'bounds': {'quick': 'DFA: every DFA with <= 3 states over {a, b}; NFA: every relation over 2 states, {a, b} and 3 states over {a}, '
                         "epsilon '_' / 'ε' / 'e'; each rendered by the harness in symbolic layouts: declaration block before or "
                         'after the transition lines, the final line inside the block or at the very end, states / input_symbols / '
                         'epsilon / (empty) final declarations present or omitted, comment and blank lines, one line per label or '
@@ -15,7 +15,7 @@ META = {
                         'line, two initial states, a repeated states / initial / final / input_symbols / epsilon declaration, a '
                         'transition line with two tokens, a transition line with one token; PDA / TM: a concrete machine with one '
                         'transition label replaced by labels of the wrong length',
-               'thorough': 'DFA with 3 states over {a, b}, NFA with 3 states over {a}'},
+               'thorough': 'additionally NFA with 3 states over {a, b}, PDA samples of 9 candidate transitions'},
     'outside': 'texts that are not renderings of the stated layouts; labels with a wrong separator character (the builders ignore the '
                'separator position, e.g. "a;uv"); duplicated identical transition lines',
     'oracle': 'the automaton the text describes is known by construction (states: declared or used, alphabet: declared or used, '
@@ -650,10 +650,14 @@ def jobs(tier):
     add('tm_box_t2', job_tm, blank='□', tstep=2, timeout=tmo)
     add('pda_labels', job_labels, kind='pda', timeout=tmo)
     add('tm_labels', job_labels, kind='tm', timeout=tmo)
+    # cheap enough for the quick tier as well
+    add('dfa_n3_k2', job_dfa, n=3, k=2, timeout=tmo)
+    add('nfa_n3_k1_unicode', job_nfa, n=3, k=1, eps='ε', timeout=tmo)
+    add('nfa_n2_k2_unicode', job_nfa, n=2, k=2, eps='ε', timeout=tmo)
     if not q:
-        add('dfa_n3_k2', job_dfa, n=3, k=2, timeout=tmo)
-        add('nfa_n3_k1_unicode', job_nfa, n=3, k=1, eps='ε', timeout=tmo)
-        add('nfa_n2_k2_unicode', job_nfa, n=2, k=2, eps='ε', timeout=tmo)
+        add('pda_pq_unicode_s6_nt9', job_pda, states=['p', 'q'], eps='ε', seed=6, nt=9, timeout=tmo)
+        add('pda_keywordlike_states_s7_nt9', job_pda, states=['tape_symbols', 'accept'], eps='_', seed=7, nt=9, timeout=tmo)
+        add('nfa_n3_k2_us', job_nfa, n=3, k=2, eps='_', timeout=tmo)
     return J
 
 
